@@ -259,10 +259,17 @@ def _tolerance(c, inst):
 
 
 def _bracket(c, inst, tol, suffix=""):
-    a = c.real("a" + suffix)
     w = c.real("w" + suffix)
-    c.assume(a >= -1)
-    c.assume(a <= 1)
+    if inst.get("a") is not None:
+        if c.symbolic:
+            from srx import core
+            a = core.as_symreal(float(inst["a"]))
+        else:
+            a = np.float64(inst["a"])
+    else:
+        a = c.real("a" + suffix)
+        c.assume(a >= -1)
+        c.assume(a <= 1)
     ws = inst.get("wsign")
     if ws:
         c.assume(w > 0 if ws > 0 else w < 0)
